@@ -260,8 +260,128 @@ def _ref(case):
     raise ValueError(op + "/" + form)
 
 
+RTOL_F4 = 5e-6
+
+
+def _mag_atol(case, label, rtol):
+    """cancellation allowance for a reading of the source expressed in `label` (see _conv_atol)."""
+    u = case["u0"]
+    if label.get("base") not in BASES or label.get("pfx") not in _EXP:
+        return Fraction(0)
+    xmax = max(abs(_frac(p)) for p in case["x0"] + case["x1"])
+    mag = (_ZERO_K["degC"] + _ZERO_K["degF"] + (_scale(u) + 1) * xmax) / _scale(label)
+    return Fraction(rtol) * mag
+
+
+def _vals(r, case, label, cands, first, rtol):
+    np = _U["np"]
+    flat = list(np.asarray(r).reshape(-1))
+    atol = _mag_atol(case, label, rtol)
+    out = []
+    for j, x in enumerate(flat):
+        f = first[j] if first is not None and len(first) == len(flat) else None
+        out.append(_enc_tol(x, cands, rtol, atol, f))
+    return out
+
+
+def _enc_tol(x, cands, rtol, atol, first):
+    global RTOL
+    old = RTOL
+    RTOL = rtol
+    try:
+        return _enc(x, cands, 0, atol, first)
+    finally:
+        RTOL = old
+
+
+def _apply_route(x, s, prev):
+    r = s["r"]
+    tgt = name(s["v"]) if s["v"]["base"] else None
+    if r == "to":
+        return x.to(tgt), None
+    if r == "in_units":
+        return x.in_units(tgt), None
+    if r == "to_value":
+        return x.to_value(tgt), s["v"]          # bare: labelled with the requested unit by construction
+    if r == "cconvert":
+        y = x.copy()
+        y.convert_to_units(tgt)
+        return y, None
+    if r == "cconvert_base":
+        y = x.copy()
+        y.convert_to_base()
+        return y, None
+    if r == "in_base_mks":
+        return x.in_base("mks"), None
+    if r == "in_base_cgs":
+        return x.in_base("cgs"), None
+    if r == "in_base_imperial":
+        return x.in_base("imperial"), None
+    if r == "in_mks":
+        return x.in_mks(), None
+    if r == "in_cgs":
+        return x.in_cgs(), None
+    raise ValueError(r)
+
+
+def _chain(case):
+    np = _U["np"]
+    dt = {"f8": np.float64, "f4": np.float32}[case["dt"]]
+    rtol = RTOL if case["dt"] == "f8" else RTOL_F4
+    xs = [float(_frac(p)) for p in case["x0"]]
+    ds = [float(_frac(p)) for p in case["x1"]]
+    src = name(case["u0"])
+    if case["shape"] == "sc":
+        x = _U["uq"](dt(xs[0]), src)
+    else:
+        x = _U["ua"](np.array(xs, dtype=dt), src)
+    cands = [_frac(p) for p in case["cands"]]
+    readings = [_frac(p) for p in case["x0"]]
+    steps = []
+    prev = None
+    prev_lab = None
+    for i, s in enumerate(case["chain"]):
+        model = [_frac(p) for p in case["t"]["steps"][i]["v"]]
+        try:
+            if s["r"] == "prev_iadd":
+                if prev is None:
+                    raise LookupError("no previous result")
+                if hasattr(prev, "units"):
+                    prev += _U["uq"](1.0, prev.units)
+                    r, forced = prev, None
+                elif isinstance(prev, np.ndarray):
+                    prev += 1.0
+                    r, forced = prev, prev_lab
+                else:
+                    r, forced = prev + 1.0, prev_lab
+            elif s["r"] == "add_diff":
+                d = _U["uq"](dt(ds[0]), name(s["v"])) if case["shape"] == "sc" else _U["ua"](np.array(ds, dtype=dt), name(s["v"]))
+                r, forced = x + d, None
+            else:
+                r, forced = _apply_route(x, s, prev)
+            units = getattr(r, "units", None)
+            lab = forced if forced is not None else (_label(units) if units is not None else {"base": "?", "pfx": "bare"})
+            o = {"k": "val", "exc": "", "unit": lab, "v": _vals(r, case, lab, cands, model, rtol)}
+            prev, prev_lab = r, lab
+        except (ValueError, KeyError, AttributeError, NameError, ImportError, LookupError) as e:
+            if not type(e).__module__.startswith("unyt"):
+                raise
+            o = {"k": "raise", "exc": type(e).__name__, "unit": {"base": "", "pfx": ""}, "v": []}
+            prev = None
+        except Exception as e:  # noqa: BLE001 - the observation is the refusal
+            o = {"k": "raise", "exc": type(e).__name__, "unit": {"base": "", "pfx": ""}, "v": []}
+            prev = None
+        # what the source holds now
+        o["srcunit"] = _label(x.units)
+        o["srcv"] = _vals(x, case, {"base": "?"}, cands, readings, rtol)
+        steps.append(o)
+    return {"steps": steps}
+
+
 def observe(case):
     fam = case["fam"]
+    if fam == "chain":
+        return _chain(case)
     try:
         if fam == "conv":
             r = _conv(case)
